@@ -133,6 +133,31 @@ func (ip *Interp) Exec(line string) ([]string, error) {
 			fmt.Fprintf(ip.Log, "%s %d %s %s:%d %s :: %s\n", toks[0], t.N, o.Class, o.Codespace, o.Code, strings.ReplaceAll(o.Log, "\n", " "), strings.Join(toks[7:], " "))
 		}
 		return o.TraceLines(hard, soft, t.N), nil
+	case "RECHECK": // RECHECK <N> <n> <transaction fields of CHECK n> : CheckTx(Recheck) of the bytes of CHECK n
+		if err := want(phIdle, -1); err != nil {
+			return nil, err
+		}
+		if len(toks) < 4 {
+			return nil, fmt.Errorf("RECHECK: want number, CHECK number and the transaction")
+		}
+		ref, err := strconv.Atoi(toks[2])
+		if err != nil {
+			return nil, fmt.Errorf("RECHECK: bad CHECK number %q", toks[2])
+		}
+		t, err := script.ParseTx(append([]string{toks[1]}, toks[3:]...))
+		if err != nil {
+			return nil, err
+		}
+		if err := ip.number(t.N); err != nil {
+			return nil, err
+		}
+		o, err := ip.R.Recheck(ref)
+		if err != nil {
+			return nil, err
+		}
+		ip.checked = true
+		ip.Last = o
+		return o.TraceLines("CR", "cr", t.N), nil
 	case "GOVEXEC":
 		if err := want(phBlock, -1); err != nil {
 			return nil, err
